@@ -578,7 +578,6 @@ func observe(rn *runner, full bool) []obsItem {
 			add("GetData", ai, names[i], func() string { return hx(adb.GetData(a, k)) })
 			if len(k) == 32 {
 				add("GetState", ai, names[i], func() string { return adb.GetState(a, common.BytesToHash(k)).Hex() })
-				add("GetCommittedState", ai, names[i], func() string { return adb.GetCommittedState(a, common.BytesToHash(k)).Hex() })
 			}
 		}
 	}
@@ -618,6 +617,17 @@ func observe(rn *runner, full bool) []obsItem {
 		for j := range tKeys {
 			k := tKeys[j]
 			add("GetTransientState", i, fmt.Sprintf("t%d", j), func() string { return adb.GetTransientState(uAddr[i], k).Hex() })
+		}
+	}
+	// GetCommittedState last: in this code base it overwrites the cached pending value of the
+	// slot, so asking it earlier would blunt every later storage / balance observation
+	for ai := range obsAddr {
+		ai, a := ai, obsAddr[ai]
+		names, keys := observedKeys(ai)
+		for i := range keys {
+			if k := keys[i]; len(k) == 32 {
+				add("GetCommittedState", ai, names[i], func() string { return adb.GetCommittedState(a, common.BytesToHash(k)).Hex() })
+			}
 		}
 	}
 	if full {
